@@ -180,6 +180,10 @@ pub fn c16(em: &mut Emit, thorough: bool, seed: u64) {
 // ---------------------------------------------------------------------------------------
 // C17
 
+thread_local! {
+    static VECTORED: std::cell::Cell<bool> = const { std::cell::Cell::new(false) };
+}
+
 struct PartsOrReq {
     method: http::Method,
     ae: Option<Vec<u8>>,
@@ -287,6 +291,16 @@ fn build_and_drain(
                     let _ = w.write(&[]).unwrap();
                 }
                 [1] => w.flush().unwrap(),
+                p if VECTORED.with(|v| v.get()) => {
+                    // two slices per call, until everything has been taken
+                    let mut off = 0;
+                    while off < p.len() {
+                        let mid = off + (p.len() - off) / 2;
+                        let n = w.write_vectored(&[std::io::IoSlice::new(&p[off..mid]), std::io::IoSlice::new(&p[mid..])]).unwrap();
+                        assert!(n > 0 && n <= p.len() - off, "write_vectored reported {}", n);
+                        off += n;
+                    }
+                }
                 p => w.write_all(p).unwrap(),
             }
             choose_drop_mode();
@@ -381,13 +395,15 @@ pub fn c17(em: &mut Emit, thorough: bool, seed: u64) {
                         r.dress
                     );
                     // what the handler does with the writer: rotate through the patterns
-                    let pattern = (level as usize + mi + as_parts as usize) % 5;
+                    let pattern = (level as usize + mi + as_parts as usize + case_no) % 6;
                     let (arg, expect): (&[u8], &[u8]) = match pattern {
                         0 => (&[], &[]),
                         1 => (&[0], &[]),
                         2 => (&[1], &[]),
                         _ => (&payload, &payload),
                     };
+                    // pattern 5: the payload goes in through `write_vectored`
+                    VECTORED.with(|v| v.set(pattern == 5));
                     let payload: &[u8] = expect;
                     match build_and_drain(&r, &calls, arg) {
                         Err(()) => em.case(&line, "PANIC", "FAIL:panic", "panic"),
